@@ -77,7 +77,7 @@ fn gen() -> Vec<Case> {
     }
     // long words and a long valid prefix: the message must still name the keyword and quote the
     // whole offending word
-    for n in [10usize, 31, 32, 33, 47, 48, 49, 63, 64, 65, 100, 127, 128, 129, 255, 256, 257, 1000] {
+    for n in (2usize..=300).chain([511, 512, 513, 1000]) {
         let long = "x".repeat(n);
         out.push(Case { input: format!("-uid {long}"), kw: Some("-uid"), word: long.clone(), family: "long-invalid-word" });
         out.push(Case { input: format!("-true -size {long} -print"), kw: Some("-size"), word: long.clone(), family: "long-invalid-word" });
